@@ -23,7 +23,7 @@ EVIDENCE = dict(
 def run(ctx):
     q = ctx.tier == "quick"
     cases = []
-    for cfg in ["PdfSyntax_gen_leaf.cfg", "PdfSyntax_gen_pair.cfg",
+    for cfg in ["PdfSyntax_gen_leaf.cfg", "PdfSyntax_gen_pair.cfg", "PdfSyntax_gen_reals.cfg",
                 "PdfSyntax_gen_deep_quick.cfg" if q else "PdfSyntax_gen_deep.cfg"]:
         g = ctx.tlc("PdfSyntaxMC", cfg, workers=1 if q else 4, collect=True, timeout=1800)
         if not g["cases"]:
